@@ -234,7 +234,7 @@ fn term_to_value(term: &Term) -> Option<Value> {
 
 /// Compare two Values for equality, handling cross-type numeric comparisons.
 #[allow(clippy::float_cmp)]
-fn values_equal(a: &Value, b: &Value) -> bool {
+pub(crate) fn values_equal(a: &Value, b: &Value) -> bool {
     match (a, b) {
         (Value::Int32(x), Value::Int32(y)) => x == y,
         (Value::Int64(x), Value::Int64(y)) => x == y,
